@@ -588,6 +588,29 @@ func Run(c *fw.Ctx) {
 		os.WriteFile(p, data, 0o644)
 		bad = append(bad, p)
 	}
+	// I/O fault injection on one document per format
+	if c.Only == "" || strings.HasPrefix(c.Only, "io:") {
+		var iodocs []string
+		r := c.Rand("iodocs")
+		g := pdfw.GenDoc(r, pdfw.DocOpts{MinPages: 2, MaxPages: 3, MaxLines: 5, MaxFonts: 2, TreeDepth: 2, Inherit: "mixed", NoEmptyPages: true})
+		for k, lay := range []pdfw.Layout{pdfw.BaselineLayout(), pdfw.RandomLayout(r, 1)} {
+			if k == 1 {
+				lay.XRef = []string{"stream"}
+				lay.ObjStm = "some"
+				lay.LenMode = "mixed"
+			}
+			p := filepath.Join(dir, fmt.Sprintf("io%d.pdf", k))
+			os.WriteFile(p, pdfw.Build(r.Int63(), lay, []*pdfw.Doc{g.Doc}).Bytes, 0o644)
+			iodocs = append(iodocs, p)
+		}
+		for i, f := range ExtraGoodFiles {
+			data, ext := f(c.Rand("iogood", i))
+			p := filepath.Join(dir, fmt.Sprintf("io-good%d.%s", i, ext))
+			os.WriteFile(p, data, 0o644)
+			iodocs = append(iodocs, p)
+		}
+		ioFaults(c, dir, iodocs)
+	}
 	pool := fw.NewPool(c, "c10", 16, 60*time.Second, 0)
 	defer pool.Close()
 	n := c.N(120, 6000)
@@ -662,6 +685,9 @@ func Run(c *fw.Ctx) {
 		}
 	})
 }
+
+// ExtraGoodFiles: valid documents of the other formats (for I/O fault injection): func(r) -> (bytes, ext).
+var ExtraGoodFiles []func(r *rand.Rand) ([]byte, string)
 
 // ExtraBadFiles lets writer packages contribute corrupt-but-plausible documents
 // (e.g. a DOCX whose document.xml member is damaged): func(r) -> (bytes, ext).
